@@ -713,6 +713,8 @@ def opTempAgg (args : List String) : String :=
           s!"{a.notNull},{a.null},{showO a.temp}")
       | "inst_divided" => "ok " ++ " ".intercalate ((Model.TempAgg.instDaily true rs bs).map showO)
       | "inst" => "ok " ++ " ".intercalate ((Model.TempAgg.instDaily false rs bs).map showO)
+      -- the same on the minute grid, as `as_freq(..., "instantaneous")` computes it (EEM.Model.ResampleMin)
+      | "inst_min" => "ok " ++ " ".intercalate ((Model.ResampleMin.instDailyMin rs bs).map showO)
       | _ => "bad-op"
     | _, _ => "bad-op"
   | _ => "bad-op"
